@@ -295,7 +295,6 @@ package logger
 //@   invariant member: !h.Options.colorful ==> (addSep ==> afterVal(jstK(*buf))) && (!addSep ==> jstK(*buf) == 2) && jstD(*buf) == 1 + h.nOpenGroups && h.nOpenGroups >= 0
 //@   ensures result
 
-
 // ================= the three handlers as one family (C02, C03) =================
 // handlerOK: h is one of this package's handlers, satisfies its invariant, and this thread does not hold its mutex.
 // muOf / outOf: the mutex and the destination shared by a handler and everything derived from it.
